@@ -128,4 +128,13 @@ Catalog == << G("Point", PtK(5)), G("LineString", <<>>), G("Polygon", PathsK(2, 
               G("GeometryCollection", << G("Point", PtK(7)), G("GeometryCollection", << G("LineString", PathK(6, 1)) >>) >>) >>
 Collections(LG) == {G("GeometryCollection", [i \in DOMAIN s |-> Catalog[s[i]]]) : s \in Vecs(LG, DOMAIN Catalog)}
 Geoms(L, LG) == Leaves(L) \cup Collections(LG)
+
+(* wide elements: member counts around an implementation's allocation hints and around the byte boundaries of the
+   32-bit count field; alone and as a collection member that is followed by another member *)
+Ones(n) == [i \in 1..n |-> 1]
+WideOf(n) == { G("LineString", PathK(0, n)), G("MultiPoint", PathK(1, n)), G("Polygon", PathsK(1, Ones(n))),
+               G("MultiLineString", PathsK(2, Ones(n))), G("MultiPolygon", [p \in 1..n |-> PathsK(p, <<1>>)]),
+               G("GeometryCollection", [i \in 1..n |-> G("Point", PtK(i))]) }
+Wide(NS, NB) == LET W == UNION {WideOf(n) : n \in NS} \cup {G("LineString", PathK(0, n)) : n \in NB}
+                IN W \cup {G("GeometryCollection", <<w, G("Point", PtK(3))>>) : w \in W}
 =============================================================================
